@@ -27,32 +27,32 @@ NORMAL = {"n", "t", "f"}
 
 
 def implied(test, edge: str) -> list:
-    """Atoms guaranteed when ``test`` evaluates to True (edge 't') / False ('f').
+    """What is known when ``test`` evaluates to True (edge 't') / False ('f'), as a
+    conjunction of clauses; each clause is a list of alternative literals
+    ``(expr, polarity)`` of which at least one holds (CNF).
 
-    Returns a list of (expr, polarity).  ``A and B`` true  => both true;
-    ``A or B`` false => both false; ``not A`` flips; anything else is an atom.
-    Nothing is inferred for the other two combinations (sound: fewer atoms).
+    ``A and B`` true => A, B;  ``A or B`` false => not A, not B;
+    ``A and B`` false => (not A) or (not B);  ``A or B`` true => A or B; ``not`` flips.
     """
-    want = edge == "t"
-    out = []
 
     def go(e, pol):
         if isinstance(e, ast.UnaryOp) and isinstance(e.op, ast.Not):
-            go(e.operand, not pol)
-        elif isinstance(e, ast.BoolOp):
-            if isinstance(e.op, ast.And) and pol:
-                for v in e.values:
-                    go(v, True)
-            elif isinstance(e.op, ast.Or) and not pol:
-                for v in e.values:
-                    go(v, False)
-            else:
-                out.append((e, pol))
-        else:
-            out.append((e, pol))
+            return go(e.operand, not pol)
+        if isinstance(e, ast.BoolOp):
+            conj = (isinstance(e.op, ast.And) and pol) or (isinstance(e.op, ast.Or) and not pol)
+            parts = [go(v, pol) for v in e.values]
+            if conj:
+                return [c for p in parts for c in p]
+            # disjunction of CNFs: distribute (sizes are tiny)
+            acc = [[]]
+            for p in parts:
+                acc = [a + c for a in acc for c in p]
+                if len(acc) > 64:
+                    return [[(e, pol)]]
+            return acc
+        return [[(e, pol)]]
 
-    go(test, want)
-    return out
+    return go(test, edge == "t")
 
 
 def strip_await(e):
@@ -62,18 +62,19 @@ def strip_await(e):
 
 
 def test_edges(cfg: CFG, atom_pred: Callable[[ast.AST, bool], bool]) -> dict:
-    """node -> set of branch kinds on which some atom satisfying ``atom_pred(expr, polarity)``
-    is guaranteed."""
+    """node -> set of branch kinds on which the gate is known to have passed: some clause
+    of what the edge implies consists only of literals satisfying ``atom_pred(expr, polarity)``."""
     out: dict = {}
     for n, d in cfg.g.nodes(data=True):
         s = d["ast"]
-        if d["kind"] == "test" and isinstance(s, ast.If) or (
+        if (d["kind"] == "test" and isinstance(s, ast.If)) or (
             d["kind"] == "loop" and isinstance(s, ast.While)
         ):
             for edge in ("t", "f"):
-                for expr, pol in implied(s.test, edge):
-                    if atom_pred(strip_await(expr), pol):
+                for clause in implied(s.test, edge):
+                    if clause and all(atom_pred(strip_await(x), pol) for x, pol in clause):
                         out.setdefault(n, set()).add(edge)
+                        break
     return out
 
 
